@@ -8,6 +8,7 @@ import (
 	"github.com/gr33nbl00d/caddy-revocation-validator/core"
 	"github.com/gr33nbl00d/caddy-revocation-validator/core/asn1parser"
 	"github.com/gr33nbl00d/caddy-revocation-validator/core/utils"
+	"github.com/gr33nbl00d/caddy-revocation-validator/core/verifhook"
 	"github.com/gr33nbl00d/caddy-revocation-validator/crl/crlloader"
 	"github.com/gr33nbl00d/caddy-revocation-validator/crl/crlreader"
 	"github.com/gr33nbl00d/caddy-revocation-validator/crl/crlstore"
@@ -68,6 +69,7 @@ func (R *Repository) AddCRL(crlLocations *core.CRLLocations, chains *core.Certif
 	if err != nil {
 		return false, err
 	}
+	verifhook.Hit("repo.add.entry", R, identifier, crlAdded)
 	if R.crlConfig.CDPConfig.CRLFetchModeParsed == config.CRLFetchModeActively {
 		if R.isEntryLoaded(entry) == false {
 			return crlAdded, R.loadActively(entry, chains, crlLocations)
@@ -76,6 +78,7 @@ func (R *Repository) AddCRL(crlLocations *core.CRLLocations, chains *core.Certif
 
 	entry.entryLock.Lock()
 	defer entry.entryLock.Unlock()
+	verifhook.Hit("repo.add.locked", R, identifier)
 	if entry.LastUpdateSignatureVerifyFailed {
 		//check if the chain contains a new valid signing cert
 		R.tryUpdateSignatureCertFromChain(entry, chains)
@@ -133,15 +136,18 @@ func (R *Repository) loadCRL(entry *Entry, chains *core.CertificateChains) (err 
 		return err
 	}
 	defer utils.CloseWithErrorHandling(func() error { return os.Remove(tempFileName) })
+	verifhook.Hit("repo.load.tmp", R, entry)
 	err = entry.CRLLoader.LoadCRL(tempFileName)
 	if err != nil {
 		return err
 	}
+	verifhook.Hit("repo.load.fetched", R, entry)
 	var processor = crlstore.CRLPersisterProcessor{CRLStore: entry.CRLStore}
 	result, err := R.crlReader.ReadCRL(processor, tempFileName)
 	if err != nil {
 		return err
 	}
+	verifhook.Hit("repo.load.parsed", R, entry)
 	if R.crlConfig.SignatureValidationModeParsed != config.SignatureValidationModeNone {
 		signatureCert, err := verifyCRLSignature(result, chains)
 		if err != nil {
@@ -158,8 +164,10 @@ func (R *Repository) loadCRL(entry *Entry, chains *core.CertificateChains) (err 
 			R.logger.Debug("crl loaded successfully", zap.String("crl", entry.CRLLoader.GetDescription()))
 		}
 	}
+	verifhook.Hit("repo.load.accepting", R, entry)
 	entry.Loaded = true
 	entry.Chains = nil
+	verifhook.Hit("repo.load.accepted", R, entry)
 	return nil
 }
 
@@ -229,6 +237,8 @@ func (R *Repository) checkCrl(certificate *x509.Certificate, identifier string) 
 	if repositoryEntry != nil {
 		repositoryEntry.entryLock.RLock()
 		defer repositoryEntry.entryLock.RUnlock()
+		verifhook.Hit("repo.lookup.locked", R, identifier)
+		defer verifhook.Hit("repo.lookup.unlocking", R, identifier)
 		if repositoryEntry.Loaded {
 			status, err := repositoryEntry.CRLStore.GetCertRevocationStatus(issuerRDNSequence, certificate.SerialNumber)
 			if err != nil {
@@ -294,6 +304,7 @@ func (R *Repository) updateCrlEntry(entry *Entry, newChains *core.CertificateCha
 		}
 	}()
 	defer utils.CloseWithErrorHandling(func() error { return os.Remove(tempFileName) })
+	verifhook.Hit("repo.refresh.tmp", R, entry)
 
 	var chains = newChains
 
@@ -309,10 +320,12 @@ func (R *Repository) updateCrlEntry(entry *Entry, newChains *core.CertificateCha
 		return err
 	}
 	R.logger.Info("loading crl " + entry.CRLLoader.GetDescription())
+	verifhook.Hit("repo.refresh.info", R, entry)
 	err = loader.LoadCRL(tempFileName)
 	if err != nil {
 		return err
 	}
+	verifhook.Hit("repo.refresh.fetched", R, entry)
 	identifier, err := loader.GetCRLLocationIdentifier()
 	if err != nil {
 		return err
@@ -321,6 +334,7 @@ func (R *Repository) updateCrlEntry(entry *Entry, newChains *core.CertificateCha
 	if err != nil {
 		return err
 	}
+	verifhook.Hit("repo.refresh.staged", R, entry)
 
 	var processor = crlstore.CRLPersisterProcessor{CRLStore: store}
 	R.logger.Info("parsing crl loaded from " + entry.CRLLoader.GetDescription())
@@ -334,6 +348,7 @@ func (R *Repository) updateCrlEntry(entry *Entry, newChains *core.CertificateCha
 		return err
 	}
 	R.logger.Info("verify crl signature of crl " + entry.CRLLoader.GetDescription())
+	verifhook.Hit("repo.refresh.parsed", R, entry)
 	signatureCert, err := verifyCRLSignature(result, chains)
 	if err != nil {
 		R.setLastSignatureVerifyFailed(entry, result)
@@ -347,11 +362,13 @@ func (R *Repository) updateCrlEntry(entry *Entry, newChains *core.CertificateCha
 		return err
 	}
 
+	verifhook.Hit("repo.refresh.swapping", R, entry)
 	err = R.updateEntry(entry, err, store)
 	if err != nil {
 		R.deleteEntrySync(identifier)
 		return err
 	}
+	verifhook.Hit("repo.refresh.swapped", R, entry)
 	R.logger.Info("finished updating crl " + entry.CRLLoader.GetDescription())
 	return nil
 }
@@ -388,6 +405,8 @@ func (R *Repository) getCrlUpdateInformation(entry *Entry, err error) (*core.CRL
 func (R *Repository) updateEntry(entry *Entry, err error, store crlstore.CRLStore) error {
 	entry.entryLock.Lock()
 	defer entry.entryLock.Unlock()
+	verifhook.Hit("repo.swap.locked", R, entry)
+	defer verifhook.Hit("repo.swap.unlocking", R, entry)
 	err = entry.CRLStore.Update(store)
 	if err != nil {
 		entry.CRLStore.Close()
@@ -539,6 +558,7 @@ func (R *Repository) Close() {
 func (R *Repository) closeRepositoryEntry(entry *Entry, id string) {
 	entry.entryLock.Lock()
 	defer entry.entryLock.Unlock()
+	verifhook.Hit("repo.close.entry", R, id)
 	entry.CRLStore.Close()
 	R.crlRepository[id] = nil
 }
